@@ -149,10 +149,13 @@ def g_cand(rng):
     for _ in range(rng.randrange(0, 3)):
         unknown.append((rng.choice(["tcptype", "generation", "ufrag", "network-id"]), g_token(rng)))
     rel = rng.random() < 0.5
+    # the related address and the related port are independent fields of IceCandidate: one in eight candidates has only one of them
+    lone = rng.random() < 0.125
+    rel_a, rel_p = (rel, rel) if not lone else rng.choice([(True, False), (False, True)])
     return {"foundation": g_token(rng, ICE, 1, 32), "component": rng.choice([1, 2, 256, U32]), "transport": rng.choice(["UDP", "TCP", "udp", "x"]),
             "priority": rng.choice([0, 1, 2130706431, U32, U64]), "addr": g_uaddr(rng), "port": rng.choice([0, 9, 3478, 65535]),
-            "typ": rng.choice(["host", "srflx", "prflx", "relay", "other"]), "raddr": g_uaddr(rng) if rel else None,
-            "rport": rng.choice([0, 9, 65535]) if rel else None, "unknown": unknown}
+            "typ": rng.choice(["host", "srflx", "prflx", "relay", "other"]), "raddr": g_uaddr(rng) if rel_a else None,
+            "rport": rng.choice([0, 9, 65535]) if rel_p else None, "unknown": unknown}
 
 
 def g_media(rng, session_dir):
